@@ -19,7 +19,7 @@ CHECKS = {
              rule=(_CHAINSIM_RULE + "; crash profile: after the sampled workload finished on the in-memory store with a commit log, EVERY prefix n of its K database commits is a crash point "
                    "(only the first n commits survive; stride sampling only when K>300), each followed by reopen + R1..R3, a seeded 40% additionally crash inside the recovery's own commits, "
                    "a seeded 25% (and always n=K) re-deliver the whole world and compare with the uninterrupted result (R4)"),
-             assumptions=_CHAINSIM_ASSUME + ["crash granularity is the database commit (memdb): the store itself is assumed atomic and prefix-durable, which is property C05's subject; crashes inside ffldb's own commit protocol are exercised by storesim"],
+             assumptions=_CHAINSIM_ASSUME + ["configuration (A), ~70% of the runs: crash granularity is the database commit on the memdb stub (the store is assumed atomic and prefix-durable, which is property C05's subject); configuration (B), ~30% of the runs: the node runs on real ffldb + real goleveldb over the simulated disk simfs and the disk crashes at a seeded I/O call inside a seeded block delivery (process crash: completed writes survive; power loss: per file durable content + seeded prefix of unsynced writes, block files arbitrary subsets and torn writes), one crash point per run, acknowledged = acknowledged before the last completed ffldb flush"],
              quick=dict(runs=40, budget=90), thorough=dict(budget=900), det_runs=30),
  "C18": dict(engine="peersim", race=True, level="exploration",
              rule=("one run = one real peer.Peer (inbound or outbound, seeded protocol version / services / AllowSelfConns / stall handler / trickle interval / network) on a harness-owned connection against a scripted remote "
